@@ -64,6 +64,10 @@ pub mod dev {
     /// read; anchors keep their default coordinates at every location of the design space
     pub const ANCHOR_VAR: u32 = 1 << 15;
 
+    /// not a deviation: the second reading of "apply a cursive lookup at the recorded position"
+    /// (the glyph there is the entry side of the link). Never part of `ALL`.
+    pub const READ_CURS_ENTRY: u32 = 1 << 30;
+
     pub const ALL: [u32; 16] = [
         PAIR_NO_SKIP, CTX_NO_SKIP, NESTED_FLAGS, YADV_DROP, MARK_FLAGS, MKMK_ANY, CURS_FLAGS, KERN_ASSIGN, KERN2_ARRAY,
         MARKSET_NONMARK, POS_BASE_TWICE, SINGLE_EMPTY, CURS_X_ENTRY, CURS_Y_CLEAR, VAR_PLACE_STATIC0, ANCHOR_VAR,
@@ -629,49 +633,56 @@ impl<'a> Interp<'a> {
                 Some(i) => i,
                 None => continue,
             };
-            let (g1, g2) = (self.gid(i), self.gid(k));
-            for st in &l.subtables {
-                if let Subtable::Cursive { cov, recs } = st {
-                    if let (Some(c1), Some(c2)) = (cov.index(g1), cov.index(g2)) {
-                        if let (Some(exit), Some(entry)) = (&recs[c1].1, &recs[c2].0) {
-                            self.note("fired:3");
-                            let (exit, entry) = (self.anchor_pt(exit), self.anchor_pt(entry));
-                            let o = &mut self.out[i];
-                            if o.dx != 0 || o.dy != 0 {
-                                self.notes.ambiguous.insert("cursive+placement");
+            self.cursive_link(l, i, k);
+        }
+    }
+
+    /// Cursive attachment of glyph k (entry anchor) to glyph i (exit anchor): the first subtable
+    /// that covers both and has the two anchors links them. Returns whether a link was made.
+    fn cursive_link(&mut self, l: &Lookup, i: usize, k: usize) -> bool {
+        let (g1, g2) = (self.gid(i), self.gid(k));
+        for st in &l.subtables {
+            if let Subtable::Cursive { cov, recs } = st {
+                if let (Some(c1), Some(c2)) = (cov.index(g1), cov.index(g2)) {
+                    if let (Some(exit), Some(entry)) = (&recs[c1].1, &recs[c2].0) {
+                        self.note("fired:3");
+                        let (exit, entry) = (self.anchor_pt(exit), self.anchor_pt(entry));
+                        let o = &mut self.out[i];
+                        if o.dx != 0 || o.dy != 0 {
+                            self.notes.ambiguous.insert("cursive+placement");
+                        }
+                        if let Attach::Mark { .. } = o.attach {
+                            self.notes.ambiguous.insert("cursive+mark-attach");
+                        }
+                        // a second cursive lookup (or subtable order) re-linking a glyph that
+                        // already takes part in a link in the same role: which link survives is
+                        // not specified (one glyph cannot meet two exit anchors)
+                        match &o.attach {
+                            Attach::Cursive { next, .. } if *next != k => {
+                                self.notes.ambiguous.insert("cursive:glyph-linked-twice");
                             }
-                            if let Attach::Mark { .. } = o.attach {
-                                self.notes.ambiguous.insert("cursive+mark-attach");
-                            }
-                            // a second cursive lookup (or subtable order) re-linking a glyph that
-                            // already takes part in a link in the same role: which link survives is
-                            // not specified (one glyph cannot meet two exit anchors)
-                            match &o.attach {
-                                Attach::Cursive { next, .. } if *next != k => {
+                            Attach::Cursive { .. } => {}
+                            _ => {
+                                if self.cursive_target[k] {
                                     self.notes.ambiguous.insert("cursive:glyph-linked-twice");
                                 }
-                                Attach::Cursive { .. } => {}
-                                _ => {
-                                    if self.cursive_target[k] {
-                                        self.notes.ambiguous.insert("cursive:glyph-linked-twice");
-                                    }
-                                }
                             }
-                            o.attach = Attach::Cursive { next: k, rtl: l.flags.rtl, exit, entry };
-                            let t = &self.out[k];
-                            if t.dx != 0 || t.dy != 0 {
-                                self.notes.ambiguous.insert("cursive+placement");
-                            }
-                            if let Attach::Mark { .. } = t.attach {
-                                self.notes.ambiguous.insert("cursive+mark-attach");
-                            }
-                            self.cursive_target[k] = true;
-                            break;
                         }
+                        o.attach = Attach::Cursive { next: k, rtl: l.flags.rtl, exit, entry };
+                        let t = &self.out[k];
+                        if t.dx != 0 || t.dy != 0 {
+                            self.notes.ambiguous.insert("cursive+placement");
+                        }
+                        if let Attach::Mark { .. } = t.attach {
+                            self.notes.ambiguous.insert("cursive+mark-attach");
+                        }
+                        self.cursive_target[k] = true;
+                        return true;
                     }
                 }
             }
         }
+        false
     }
 
     /// MarkBasePos / MarkLigPos: the current glyph (covered by the mark coverage, not skipped
@@ -685,6 +696,14 @@ impl<'a> Interp<'a> {
                     continue;
                 }
             }
+            self.mark_attach_at(l, j);
+        }
+    }
+
+    /// MarkBasePos / MarkLigPos for the mark at j: base = nearest preceding non-mark glyph.
+    /// Returns whether the mark was attached.
+    fn mark_attach_at(&mut self, l: &Lookup, j: usize) -> bool {
+        {
             let g = self.gid(j);
             // nearest preceding non-mark glyph
             let mut base = None;
@@ -698,7 +717,7 @@ impl<'a> Interp<'a> {
             }
             let base = match base {
                 Some(b) => b,
-                None => continue,
+                None => return false,
             };
             let bg = self.gid(base);
             for st in &l.subtables {
@@ -715,7 +734,7 @@ impl<'a> Interp<'a> {
                                     self.note("mark:not-adjacent-to-base");
                                 }
                                 self.attach_mark(j, base, ba, ma);
-                                break;
+                                return true;
                             }
                         }
                     }
@@ -737,8 +756,11 @@ impl<'a> Interp<'a> {
                                 if *class > 0 {
                                     self.note("mark:class>0");
                                 }
+                                if j - base > 1 {
+                                    self.note("marklig:not-adjacent-to-ligature");
+                                }
                                 self.attach_mark(j, base, ba, ma);
-                                break;
+                                return true;
                             }
                         }
                     }
@@ -746,6 +768,7 @@ impl<'a> Interp<'a> {
                 }
             }
         }
+        false
     }
 
     fn mkmk_try(&mut self, l: &Lookup, i: usize, j: usize) -> bool {
@@ -827,6 +850,29 @@ impl<'a> Interp<'a> {
             }
             self.mkmk_try(l, i, j);
         }
+    }
+
+    /// MarkMarkPos applied once to the mark at j through a sequence-lookup record: mark2 is the
+    /// immediately preceding glyph not skipped by the mark-filtering part of the lookup flags,
+    /// if it is a mark (as for a top-level lookup of this type).
+    fn mark_mark_nested(&mut self, l: &Lookup, j: usize) -> bool {
+        let filter_only = Flags { mark_attach_type: l.flags.mark_attach_type, mark_filter_set: l.flags.mark_filter_set, ..Flags::default() };
+        let i = match self.prev(&filter_only, j) {
+            Some(i) => i,
+            None => return false,
+        };
+        if self.class(self.gid(i)) != 3 || self.class(self.gid(j)) != 3 {
+            return false;
+        }
+        let (a, b) = (&self.glyphs[i], &self.glyphs[j]);
+        if a.comp != b.comp && !a.lig && !b.lig {
+            self.notes.ambiguous.insert("mkmk:different-ligature-components");
+            return false;
+        }
+        if j - i > 1 {
+            self.note("mkmk:not-adjacent-to-mark2");
+        }
+        self.mkmk_try(l, i, j)
     }
 
     // -----------------------------------------------------------------------------------------
@@ -1039,6 +1085,67 @@ impl<'a> Interp<'a> {
                 if let Some(k) = self.next(&nf, at) {
                     if self.pair_at(l, at, k).is_some() {
                         self.note("nested:pair");
+                    }
+                }
+            }
+            3 => {
+                // The specification does not say which side of a cursive link "the glyph at the
+                // recorded position" is. Reading A (default): it is the glyph whose exit anchor
+                // is used, linked to the next glyph; reading B (READ_CURS_ENTRY): it is the glyph
+                // whose entry anchor is used, linked to the previous glyph. The neighbour is the
+                // nearest glyph the nested lookup's flags do not skip. The check accepts either.
+                self.note("nested:cursive-attempt");
+                let fired = if self.on(dev::READ_CURS_ENTRY) {
+                    match self.prev(&nf, at) {
+                        Some(i) => self.cursive_link(l, i, at),
+                        None => false,
+                    }
+                } else {
+                    match self.next(&nf, at) {
+                        Some(k) => self.cursive_link(l, at, k),
+                        None => false,
+                    }
+                };
+                if fired {
+                    self.note("nested:cursive");
+                }
+            }
+            4 | 5 | 6 => {
+                // the glyph at the recorded position is the mark; base / ligature / mark2 are
+                // found as for a top-level lookup of the type. Not asserted (excluded, counted):
+                // nested lookups whose flags ignore bases, ligatures or all marks, and targets
+                // that the nested lookup's own mark filter would skip - the specification does
+                // not say whether the flags of a nested attachment lookup apply to its target.
+                let would = l.subtables.iter().any(|st| match st {
+                    Subtable::MarkBase { mark_cov, .. } | Subtable::MarkLig { mark_cov, .. } => mark_cov.index(self.gid(at)).is_some(),
+                    Subtable::MarkMark { mark1_cov, .. } => mark1_cov.index(self.gid(at)).is_some(),
+                    _ => false,
+                });
+                if !would {
+                    return;
+                }
+                if nf.ignore_base || nf.ignore_lig || nf.ignore_marks {
+                    self.notes.ambiguous.insert("nested-attach:lookup-ignores-glyph-classes");
+                    return;
+                }
+                if self.skip_reason(&nf, self.gid(at)).is_some() {
+                    self.notes.ambiguous.insert("nested-attach:target-skipped-by-own-filter");
+                    return;
+                }
+                let fired = if l.ltype == 6 { self.mark_mark_nested(l, at) } else { self.mark_attach_at(l, at) };
+                if fired {
+                    self.note(match l.ltype {
+                        4 => "nested:mark-base",
+                        5 => "nested:mark-lig",
+                        _ => "nested:mark-mark",
+                    });
+                    if let Attach::Mark { base, .. } = &self.out[at].attach {
+                        if at - *base > 1 {
+                            self.note("nested:attach-not-adjacent");
+                        }
+                    }
+                    if !nf.is_plain() {
+                        self.note("nested:attach-with-mark-filter");
                     }
                 }
             }
